@@ -57,6 +57,7 @@ type lifeCycle struct {
 	slowHandler   time.Duration
 	quiet         time.Duration
 	midLine       bool
+	mute          bool // the server stops reading for good once the cause has been started
 	closers       int
 	closeRet      int
 	closeWant     int
@@ -375,6 +376,19 @@ func lifeRun(e *Env) {
 			cy.bgBusy = time.Duration(g.Range(5, 90)) * time.Minute
 		}
 		cy.midLine = g.Pct(20)
+		// a peer that has stopped reading: whatever the client still writes stays
+		// in a full window, and only the client's own teardown can free that write
+		// (not together with causes that need the peer or the event loop: QUIT ends
+		// by the server reading it, and the background handler's Close is started
+		// by a line that a blocked event loop never gets to)
+		// (nor with a half-close: a peer that has stopped reading and then closes
+		// its socket resets the connection - the client's writes fail -, which is
+		// the reset cause; simnet's server-side close is an EOF with the other
+		// direction still open)
+		viaAPI := func(c int) bool {
+			return c == -1 || c == causeClose1 || c == causeCloseN || c == causeCancel || c == causeReset
+		}
+		cy.mute = g.Pct(15) && viaAPI(cy.cause) && viaAPI(cy.cause2)
 		// the cause may begin the moment the dial completes, i.e. while Connect
 		// is still starting goroutines / dispatching REGISTER (a Close that early
 		// would legitimately be refused as "not connected", so only the causes
@@ -932,6 +946,11 @@ func (w *lifeW) server(cy *lifeCycle) {
 	}
 	if cy.cause2 >= 0 {
 		w.fire(cy, cy.cause2, "b")
+	}
+	if cy.mute {
+		e.S.Count("fault.peer-stops-reading")
+		simrt.Block("life.server", "a peer that no longer reads (until the client closes the socket)", func() bool { return l.ClientEnd })
+		return
 	}
 	// keep consuming what the client writes so that a bounded window drains
 	for {
